@@ -29,13 +29,13 @@ RULE = ('(i) every (tie pattern, weak order) n=2..5 x {open,closed}; (ii) family
         'dataset')
 ASSUMPTIONS = ['recovery is decided on the enumerated dataset alphabet only', 'VERIF_SEED only changes the sampler seeds']
 
-CHUNK = 200
+CHUNK = 400
 CELL_TAUS = (0.3, 0.4, 0.5, 0.6, 0.7)
 N_REC = 4000
 
 
 def bounds(tier):
-    return {'n_max_exhaustive': 5, 'recovery_cells': 15, 'K': 12 if tier == 'quick' else 40, 'n_recovery': N_REC}
+    return {'n_max_exhaustive': 5 if tier == 'quick' else 6, 'recovery_cells': 15, 'K': 12 if tier == 'quick' else 40, 'n_recovery': N_REC}
 
 
 def cases(tier, seed):
@@ -45,8 +45,8 @@ def cases(tier, seed):
         for t in CELL_TAUS:
             for k0 in range(0, K, 4):
                 out.append(('cell', fam, t, k0, min(K, k0 + 4), seed))
-    for n in (5, 4, 3, 2):
-        total = len(A.rank_patterns(n))
+    for n in ((5, 4, 3, 2) if tier == 'quick' else (6, 5, 4, 3, 2)):
+        total = {2: 6, 3: 52, 4: 600, 5: 8656, 6: 149856}[n]
         for mapping in ('open', 'closed'):
             for start in range(0, total, CHUNK):
                 out.append(('patterns', n, start, min(total, start + CHUNK), mapping, 0))
